@@ -331,6 +331,11 @@ func visitInstr(fr *frame, instr ssa.Instruction) continuation {
 	case *ssa.MakeSlice:
 		lenT := fr.get(instr.Len).(*Term)
 		capT := fr.get(instr.Cap).(*Term)
+		if eb, ok := instr.Type().Underlying().(*types.Slice).Elem().Underlying().(*types.Basic); ok && eb.Kind() == types.Uint8 && capT.isC && capT.Int() > 65536 {
+			// a large byte buffer (persistence block buffer): contents are modelled by the gob/bytes stubs
+			fr.env[instr] = &ghostBytes{}
+			break
+		}
 		if isU64Slice(instr.Type()) {
 			fr.env[instr] = &symSlice{b: &symBack{arr: mkConstArr(mkBV(64, 0))}, len: mkResize(lenT, 64, true), cap: mkResize(capT, 64, true)}
 			break
